@@ -137,6 +137,25 @@ def hazards(ctx, site):
     head = site.owner.split('.')[0].split('[')[0]
     owner_names.add(head)
     r = fl.roots(site.value, nid, stop_names=owner_names | {'self'} if head == 'self' else owner_names)
+    if (isinstance(site.value, (ast.Dict, ast.List)) and not (site.value.keys if isinstance(site.value, ast.Dict) else site.value.elts)) or \
+       (isinstance(site.value, ast.Call) and isinstance(site.value.func, ast.Name) and site.value.func.id in ('dict', 'list', 'set')
+            and not site.value.args and not site.value.keywords):
+        # the cache starts as an empty container and is filled afterwards: what is put into it is the cached value
+        r = set(r)
+        for n_ in walk_no_nested(site.func.node):
+            v_ = None
+            if isinstance(n_, ast.Assign) and len(n_.targets) == 1 and isinstance(n_.targets[0], ast.Subscript) and \
+               isinstance(n_.targets[0].value, ast.Attribute) and n_.targets[0].value.attr == site.attr and \
+               norm(n_.targets[0].value.value) == site.owner:
+                v_ = n_.value
+            elif isinstance(n_, ast.Call) and isinstance(n_.func, ast.Attribute) and n_.func.attr in ('append', 'add', 'extend', 'update') and \
+                    isinstance(n_.func.value, ast.Attribute) and n_.func.value.attr == site.attr and \
+                    norm(n_.func.value.value) == site.owner and n_.args:
+                v_ = n_.args[0]
+            if v_ is not None:
+                nid_ = fl.node_id_of(n_)
+                if nid_ is not None:
+                    r |= set(fl.roots(v_, nid_, stop_names=owner_names | {'self'} if head == 'self' else owner_names))
     bad = []
     params = set(site.func.all_params)
     # parameters the key expression is derived from count as keys
